@@ -18,6 +18,9 @@ import traceback
 sys.path.insert(0, os.path.dirname(os.path.dirname(os.path.abspath(__file__))))
 sys.dont_write_bytecode = True
 
+if os.environ.get("VERIF_REPO"):          # run against a scratch worktree instead of /repo
+    sys.path.insert(0, os.environ["VERIF_REPO"])
+
 from harness import common  # noqa: E402
 from harness.common import Ctx, HarnessError  # noqa: E402
 
